@@ -81,9 +81,18 @@ class FunctionNode(ConfigDict):
                 self._safe = False
 
         try:
-            return super().ayns.on_merge_impl(prefix, other)
+            ret = super().ayns.on_merge_impl(prefix, other)
         finally:
             self.__dict__.pop('_dropped_paths', None)
+
+        if new_func and ret is other and type(self) is type(other):
+            # "other" has taken the place of this node, which has been given its target above. The node can stand at other places too
+            # (yaml alias: one node, evaluated once): it stays the node of all of them, with everything "other" brings
+            for name, child in list(other.ayns.named_children()):
+                self.ayns.set_child(name, child)
+            ret = self._replace_self(other)
+
+        return ret
 
     @namespace('ayns')
     def on_evaluate_impl(self, path, ctx):
